@@ -158,6 +158,32 @@ def _unquote_path(path):
     return path.replace("\n", "%2F")
 
 
+def _wildcard_match(path, url):
+    # Matches a GYM2008 path ("*" stands for any characters, a final "$" 
+    # anchors the end) against the start of the URL. The parts between the 
+    # wildcards are searched from left to right, which needs no 
+    # backtracking; a regular expression with one ".*" per wildcard takes 
+    # exponential time on a URL that does not match.
+    anchored = path.endswith("$")
+    if anchored:
+        path = path[:-1]
+    parts = path.split("*")
+    if not url.startswith(parts[0]):
+        return False
+    position = len(parts[0])
+    if len(parts) == 1:
+        return position == len(url) or not anchored
+    for part in parts[1:-1]:
+        index = url.find(part, position)
+        if index < 0:
+            return False
+        position = index + len(part)
+    if anchored:
+        return len(url) - len(parts[-1]) >= position and \
+            url.endswith(parts[-1])
+    return url.find(parts[-1], position) >= 0
+
+
 def _scrub_data(s):
     # Data is either a path or user agent name; i.e. the data portion of a 
     # robots.txt line. Scrubbing it consists of (a) removing extraneous 
@@ -278,15 +304,7 @@ class _Ruleset(object):
             if (syntax == GYM2008) and ("*" in path or path.endswith("$")):
                 # GYM2008-specific syntax applies here
                 # http://www.google.com/support/webmasters/bin/answer.py?hl=en&answer=40360
-                if path.endswith("$"):
-                    appendix = "$"
-                    path = path[:-1]
-                else:
-                    appendix = ""
-                parts = path.split("*")
-                pattern = "%s%s" % \
-                    (".*".join([re.escape(p) for p in parts]), appendix)
-                if re.match(pattern, url):
+                if _wildcard_match(path, url):
                     # Ding!
                     done = True
                     allowed = (rule_type == self.ALLOW)
